@@ -36,6 +36,7 @@ type Engine struct {
 	fset *token.FileSet
 
 	assumptions []*Term
+	isFact      []bool
 	obligations []*Obligation
 	nondets     []*NondetVar
 	nondetCount map[string]int
@@ -55,6 +56,10 @@ type Engine struct {
 	steps     int
 	inInit    []*ssa.Package
 	lastNowSec, lastNowNs *Term
+	folded map[string]int // vAssert labels decided by the term simplifier alone
+	syncMaps map[string]*MapData
+	globalLits map[int]bool // literals established by unconditional vAssume
+	globalLitV int
 }
 
 // HarnessSpec configures one symbolic run.
@@ -72,7 +77,10 @@ type HarnessSpec struct {
 	Reach       bool // harness is a reachability witness only
 	KnownOpen   []string // ids of known findings listed as open (vKnown)
 	Par          int  // solver processes for this harness
+	NoLightPass  bool // skip the first attempt without facts
+	NoTactic     bool // z3: plain (check-sat) instead of (check-sat-using qfaufbv)
 	GroupAsserts bool // decide all asserts with one query (cheap harnesses)
+	ClockMin, ClockMax int64 // range of time.Now in Unix seconds (default 2020..2100)
 	NonMonotonicClock bool // time.Now may go backwards between calls
 	BMI2        string   // "", "generic": cpu.X86.HasBMI2=false; "asm": true; "either": symbolic
 	MaxStrEq    int
@@ -83,7 +91,7 @@ func NewEngine(prog *ssa.Program, pkg *ssa.Package, spec *HarnessSpec) *Engine {
 		nondetCount: map[string]int{}, globals: map[*ssa.Global]*Object{},
 		initDone: map[*ssa.Package]bool{}, errGlobal: map[*ssa.Global]Value{},
 		callLog: map[string]int{}, stubLog: map[string]int{}, notes: map[string]bool{},
-		infoCache: map[*ssa.Function]*fnInfo{}, maxUnwind: map[string]int{}}
+		infoCache: map[*ssa.Function]*fnInfo{}, maxUnwind: map[string]int{}, folded: map[string]int{}}
 }
 
 func (e *Engine) note(s string) { e.notes[s] = true }
@@ -93,10 +101,25 @@ func (e *Engine) assume(c *Term) {
 		return
 	}
 	e.assumptions = append(e.assumptions, c)
+	e.isFact = append(e.isFact, false)
+}
+
+// assumeFact records "the obligation just emitted holds" for what follows.
+// Facts are consequences of the real assumptions once their obligation is
+// discharged, so a query may leave them out (first, cheaper attempt).
+func (e *Engine) assumeFact(c *Term) {
+	if c.IsTrue() {
+		return
+	}
+	e.assumptions = append(e.assumptions, c)
+	e.isFact = append(e.isFact, true)
 }
 
 func (e *Engine) oblige(kind, label string, cond *Term, pos token.Pos, fn string) {
 	if cond.IsFalse() && kind != "reach" {
+		if kind == "assert" {
+			e.folded[label]++
+		}
 		return
 	}
 	p := ""
@@ -122,6 +145,9 @@ func shortPath(s string) string {
 
 // panicIf records a panic obligation and then assumes the panic did not happen.
 func (e *Engine) panicIf(fr *frame, g, cond *Term, what string, pos token.Pos) {
+	if fr != nil && !cond.IsFalse() {
+		cond = fr.ctx(cond, g)
+	}
 	c := And(g, cond)
 	if c.IsFalse() {
 		return
@@ -134,7 +160,7 @@ func (e *Engine) panicIf(fr *frame, g, cond *Term, what string, pos token.Pos) {
 		fn = fr.fn.String()
 	}
 	e.oblige("panic", what, c, pos, fn)
-	e.assume(Not(c))
+	e.assumeFact(Not(c))
 }
 
 // ---- function analysis ----
@@ -293,6 +319,9 @@ type frame struct {
 	curPos token.Pos
 	caller *frame
 	entryG *Term
+	litG   *Term
+	litM   map[int]bool
+	litV   int
 }
 
 func (e *Engine) bound(fn *ssa.Function) int {
@@ -406,6 +435,8 @@ func (fr *frame) runLoop(L *loopInfo) {
 					e.note(fmt.Sprintf("loop in %s: exit after %d iterations ASSUMED (outside the claim beyond)", name, bound))
 				} else {
 					e.oblige("unwind", fmt.Sprintf("unwinding assertion: loop in %s needs more than %d iterations", fr.fn.Name(), bound), cond, L.header.Instrs[0].Pos(), name)
+					e.assumeFact(Not(cond))
+					cond = tFalse
 				}
 				e.assume(Not(cond))
 			}
@@ -416,7 +447,33 @@ func (fr *frame) runLoop(L *loopInfo) {
 	}
 }
 
+func (fr *frame) lits(g *Term) map[int]bool {
+	e := fr.e
+	if g == fr.litG && fr.litV == e.globalLitV {
+		return fr.litM
+	}
+	m := guardLits(g)
+	for k, v := range e.globalLits {
+		if _, ok := m[k]; !ok {
+			m[k] = v
+		}
+	}
+	fr.litG, fr.litM, fr.litV = g, m, e.globalLitV
+	return fr.litM
+}
+
+// ctx simplifies a scalar under the literals of the current path guard.
+func (fr *frame) ctx(t *Term, g *Term) *Term {
+	if t.op == OConst || t.op == OVar || (g.IsTrue() && len(fr.e.globalLits) == 0) {
+		return t
+	}
+	return simplifyUnder(t, fr.lits(g), 400)
+}
+
 func (fr *frame) setReg(v ssa.Value, val Value, g *Term) {
+	if t, ok := val.(*Term); ok {
+		val = fr.ctx(t, g)
+	}
 	if fr.info.escapes[v] {
 		if old, ok := fr.regs[v]; ok && old != nil {
 			fr.regs[v] = merge(g, val, old)
@@ -486,7 +543,7 @@ func (fr *frame) execBlock(b *ssa.BasicBlock) {
 		case *ssa.Jump:
 			fr.addEdge(b, 0, g)
 		case *ssa.If:
-			c := fr.val(x.Cond).(*Term)
+			c := fr.ctx(fr.val(x.Cond).(*Term), g)
 			fr.addEdge(b, 0, And(g, c))
 			fr.addEdge(b, 1, And(g, Not(c)))
 		case *ssa.Return:
@@ -510,7 +567,7 @@ func (fr *frame) execBlock(b *ssa.BasicBlock) {
 			fr.retG = Or(fr.retG, g)
 		case *ssa.Panic:
 			e.oblige("panic", "explicit panic: "+describe(x.X), g, x.Pos(), fr.fn.String())
-			e.assume(Not(g))
+			e.assumeFact(Not(g))
 		case *ssa.RunDefers:
 			for i := len(fr.defers) - 1; i >= 0; i-- {
 				d := fr.defers[i]
